@@ -10,6 +10,7 @@ from hippolyzer.lib.base.message.message_dot_xml import MessageDotXML
 from hippolyzer.lib.proxy.addons import AddonManager
 from hippolyzer.lib.proxy.lludp_proxy import InterceptingLLUDPProxyProtocol
 from hippolyzer.lib.proxy.sessions import SessionManager
+from hippolyzer.lib.proxy.socks_proxy import ProxyClientContext
 from hippolyzer.lib.proxy.settings import ProxySettings
 from hippolyzer.lib.proxy.transport import SOCKS5UDPTransport
 
@@ -51,6 +52,14 @@ class FakeSock:
         return default
 
 
+class _FakeWriter:
+    def __init__(self):
+        self.closed = False
+
+    def close(self):
+        self.closed = True
+
+
 def socks_header(addr, rsv=0, frag=0, atyp=1):
     """RFC 1928 section 7 UDP request header for an IPv4 destination"""
     return struct.pack("!HBB", rsv, frag, atyp) + socket.inet_aton(addr[0]) + struct.pack("!H", addr[1])
@@ -84,7 +93,10 @@ class ProxyWorld:
             proto = InterceptingLLUDPProxyProtocol(caddr, self.sm)
             sock = FakeSock(self.wire, v)
             proto.transport = SOCKS5UDPTransport(sock)
-            self.viewers.append({"addr": caddr, "session": sess, "proto": proto, "regions": regions, "sock": sock})
+            # the SOCKS control connection this association belongs to (what SOCKS5Server does on UDP ASSOCIATE)
+            ctx = ProxyClientContext(_FakeWriter())
+            ctx.udp_associations.append(proto)
+            self.viewers.append({"addr": caddr, "session": sess, "proto": proto, "regions": regions, "sock": sock, "ctx": ctx})
 
     def feed(self, v, data, source):
         """datagram arriving on association v's socket; returns (new wire entries, exception or None)"""
@@ -102,6 +114,10 @@ class ProxyWorld:
 
     def from_sim(self, v, region_addr, payload):
         return self.feed(v, payload, region_addr)
+
+    def disconnect(self, v):
+        """the viewer's SOCKS control connection ends: its context closes its own associations"""
+        self.viewers[v]["ctx"].close()
 
     def close(self):
         for vw in self.viewers:
